@@ -88,6 +88,9 @@ def main():
     rewrite("consensus/impl/dpos/slot/slot.go", [(r"time\.Now\(\)", "simclock.Now()", 2)], simclock)
     rewrite("mempool/txlist.go", [(r"time\.Now\(\)", "simclock.Now()", None)], simclock)
     rewrite("mempool/mempool.go", [(r"eTime := time\.Now\(\)", "eTime := simclock.Now()", 1)], simclock)
+    # a panic below the chain manager must surface as a Go panic, not end the simulator process
+    rewrite("chain/recover.go", [(r"os\.Exit\(10\)", 'panic(fmt.Sprint("verif: RecoverExit: ", r))', 1),
+                                 (r'\n\t"os"\n', '\n', 1)])
     # the trie starts one goroutine per sibling subtree: let the simulator choose the order
     simgo = 'simgo "github.com/aergoio/aergo/v2/zz_verif/simgo"'
     rewrite("pkg/trie/trie.go", [
@@ -118,8 +121,17 @@ def main():
          "func VerifRegister(name string, c func(dir string, options ...Option) (DB, error)) {\n" \
          "\tregisterDBConstructor(ImplType(name), c)\n}\n"
     open(dbgo, "w").write(s)
+    zl = copymod("github.com/rs/zerolog@v1.31.0", "zerolog")
+    zlog = os.path.join(zl, "log.go")
+    s = open(zlog).read()
+    pat = "return l.newEvent(FatalLevel, func(msg string) { os.Exit(1) })"
+    if s.count(pat) != 1:
+        die("zerolog log.go: Fatal hook pattern not found")
+    s = s.replace(pat, 'return l.newEvent(FatalLevel, func(msg string) { _ = os.Stderr; panic("verif: logger.Fatal: " + msg) })')
+    open(zlog, "w").write(s)
     with open(os.path.join(out, "replaces.txt"), "w") as f:
         f.write("replace github.com/aergoio/aergo-lib => %s\n" % lib)
+        f.write("replace github.com/rs/zerolog => %s\n" % zl)
 
     with open(os.path.join(out, "overlay.json"), "w") as f:
         json.dump({"Replace": repl}, f, indent=1)
